@@ -31,6 +31,8 @@ TECHNIQUE += '; identity-shortcut predicate check'
 EXPLANATION += ' Added: (R5) prepare_unrestricted_aminusb returns the unconverted object only under the documented nothing-to-do tests.'
 TECHNIQUE += '; evaluation of convert_to_unrestricted on abstract restricted orbitals'
 EXPLANATION += ' R3 no longer matches the constructor template: convert_to_unrestricted is interpreted on abstract restricted orbitals (explicit occs_aminusb, missing optional arrays, no occupations, six constant occupation patterns) and every alpha/beta view, nelec, spinpol and the orbital counts of the result are compared with those of the input; identity on unrestricted input and ValueError on generalized input are evaluated the same way.'
+TECHNIQUE += '; evaluation of convert_to_segmented / prepare_segmented on abstract basis sets'
+EXPLANATION += ' R1/R2 no longer match loop templates: convert_to_segmented is interpreted on ten abstract shells (symbolic exponents / coefficients, one contraction with vanishing coefficients) for keep_sp in {False, True} and the output is compared shell by shell (center, angular momentum, kind, exponents, coefficient column, order, idempotence); prepare_segmented is interpreted on 20 shell / keep_sp combinations and must return the same object exactly when convert_to_segmented keeps the shell, else raise PrepareDumpError.'
 TRUSTED = ["CPython ast parser", "attrs.evolve copies all fields not named", "np.concatenate keeps the order of its inputs"]
 
 
@@ -58,105 +60,14 @@ def run(ctx):
     shell_cls = prog.cls("iodata.basis.Shell")
     mo_cls, mof, mop = class_schema(prog, "iodata.orbitals.MolecularOrbitals")
 
-    # ------------------------------------------------------------------ R1
+    # ------------------------------------------------------------------ R1 / R2
+    # decided by evaluating convert_to_segmented and prepare_segmented on abstract basis sets (symbolic exponents and
+    # coefficient matrices; ten shells covering single, SP, PS, SS, PP, DF, SPD and SSS contractions): no loop template.
     ctx.rule("R1", "segmentation splits shells in contraction order", "basis functions change order or lose their center/exponents, so every orbital coefficient means something else")
-    ob = cs.posparams[0]
-    loops = [n for n in cs.own_nodes() if isinstance(n, ast.For)]
-    outer = [l for l in loops if src_of(l.iter) == f"{ob}.shells"]
-    keep_pred = None
-    if len(outer) != 1 or not isinstance(outer[0].target, ast.Name):
-        ctx.violate("R1", f"convert_to_segmented does not iterate `{ob}.shells` directly (sorted / reversed / filtered?)", cs, cs.node, construct="shell loop")
-    else:
-        lp = outer[0]
-        sv = lp.target.id
-        ctx.ok("R1", f"for {sv} in {ob}.shells  (in order)", f"{cs.module.relpath}:{lp.lineno}")
-        body = [s for s in lp.body]
-        if len(body) == 1 and isinstance(body[0], ast.If):
-            ifs = body[0]
-            keep_pred = _norm_pred(ifs.test, sv)
-            # kept shells appended as they are
-            kept = [s for s in ifs.body if isinstance(s, ast.Expr) and isinstance(s.value, ast.Call) and getattr(s.value.func, "attr", "") == "append"]
-            if len(kept) == 1 and len(ifs.body) == 1 and src_of(kept[0].value.args[0]) == sv:
-                acc = src_of(kept[0].value.func.value)
-                ctx.ok("R1", f"kept shells are appended unchanged ({acc}.append({sv}))", f"{cs.module.relpath}:{kept[0].lineno}")
-            else:
-                acc = None
-                ctx.violate("R1", "shells that need no splitting are not appended unchanged", cs, ifs, construct="keep branch")
-            inner = [s for s in ifs.orelse if isinstance(s, ast.For)]
-            if len(inner) == 1 and len(ifs.orelse) == 1:
-                il = inner[0]
-                want_iter = f"zip({sv}.angmoms, {sv}.kinds, {sv}.coeffs.T)"
-                if src_of(il.iter) == want_iter and isinstance(il.target, ast.Tuple) and len(il.target.elts) == 3:
-                    a, k, c = (e.id for e in il.target.elts)
-                    ctx.ok("R1", f"for {a}, {k}, {c} in {want_iter}  (contraction order)", f"{cs.module.relpath}:{il.lineno}")
-                    calls = [x for x in prog.parents(cs) and [cs2 for cs2 in cs.calls if cs2.cls is shell_cls]]
-                    apps = [s for s in il.body if isinstance(s, ast.Expr) and isinstance(s.value, ast.Call) and getattr(s.value.func, "attr", "") == "append"]
-                    if len(apps) == 1 and len(il.body) == 1 and len(calls) == 1 and apps[0].value.args[0] is calls[0].node and (acc is None or src_of(apps[0].value.func.value) == acc):
-                        ctor = calls[0].node
-                        fields = list(shell_cls.fields)
-                        bound = {}
-                        for i, arg in enumerate(ctor.args):
-                            bound[fields[i]] = arg
-                        for kw in ctor.keywords:
-                            bound[kw.arg] = kw.value
-                        want = {
-                            "icenter": f"{sv}.icenter", "angmoms": f"[{a}]", "kinds": f"[{k}]", "exponents": f"{sv}.exponents",
-                        }
-                        bad = [f"{f}={src_of(bound[f]) if f in bound else None}" for f, w in want.items() if f not in bound or src_of(bound[f]) != w]
-                        cexp = src_of(bound["coeffs"]) if "coeffs" in bound else ""
-                        if not (cexp.startswith(f"{c}.reshape(") or cexp in (f"{c}[:, None]", f"{c}[:, np.newaxis]")):
-                            bad.append(f"coeffs={cexp}")
-                        if bad:
-                            ctx.violate("R1", f"a split shell is built with {bad}; expected the parent's center/exponents and the matching (angmom, kind, column)", cs, ctor)
-                        else:
-                            ctx.ok("R1", "each split shell: parent's icenter and exponents, [angmom], [kind], its own coefficient column", f"{cs.module.relpath}:{ctor.lineno}")
-                    else:
-                        ctx.violate("R1", "the contraction loop does not append exactly one new Shell per contraction to the same list", cs, il, construct="contraction loop body")
-                else:
-                    ctx.violate("R1", f"contractions are not traversed as `{want_iter}`", cs, il)
-            else:
-                ctx.violate("R1", "the split branch is not a single loop over the contractions", cs, ifs, construct="split branch")
-        else:
-            ctx.violate("R1", "the shell loop body is not a single keep-or-split decision", cs, lp, construct="shell loop body")
-    rets = [n for n in cs.own_nodes() if isinstance(n, ast.Return)]
-    okret = False
-    if len(rets) == 1 and isinstance(rets[0].value, ast.Call):
-        r = prog.resolve_expr(cs, cs.module, rets[0].value.func)
-        c = rets[0].value
-        okret = bool(r and r[0] == "external" and r[1] in ("attrs.evolve", "attr.evolve") and len(c.args) == 1 and src_of(c.args[0]) == ob and [k.arg for k in c.keywords] == ["shells"])
-    if okret:
-        ctx.ok("R1", f"returns attrs.evolve({ob}, shells=...): conventions and primitive normalisation carried over", f"{cs.module.relpath}:{rets[0].lineno}")
-    else:
-        ctx.violate("R1", "the segmented basis is not built with attrs.evolve(obasis, shells=...) (conventions / normalisation may be lost)", cs, rets[0] if rets else cs.node)
-    for n in cs.own_nodes():
-        if isinstance(n, ast.Call) and getattr(n.func, "attr", "") in ("sort", "reverse", "insert", "pop", "remove"):
-            ctx.violate("R1", f"convert_to_segmented re-orders its shell list with .{n.func.attr}()", cs, n)
-        if isinstance(n, ast.Call) and getattr(n.func, "id", "") in ("sorted", "reversed"):
-            ctx.violate("R1", f"convert_to_segmented re-orders shells with {n.func.id}()", cs, n)
-
-    # ------------------------------------------------------------------ R2
     ctx.rule("R2", "prepare and convert agree on which shells need splitting", "prepare declares a basis fine that convert would split (written with generalized contractions), or converts needlessly")
-    prep_pred = None
-    for n in ps.own_nodes():
-        if isinstance(n, ast.Call) and getattr(n.func, "id", "") == "all" and n.args and isinstance(n.args[0], ast.GeneratorExp):
-            g = n.args[0]
-            if len(g.generators) == 1 and isinstance(g.generators[0].target, ast.Name) and src_of(g.generators[0].iter) == f"{ps.posparams[0]}.obasis.shells" and not g.generators[0].ifs:
-                prep_pred = _norm_pred(g.elt, g.generators[0].target.id)
-                # the all(...) must guard the identity return
-                par = prog.parents(ps).get(id(n))
-                if not (isinstance(par, ast.If) and par.test is n and any(isinstance(s, ast.Return) and src_of(s.value) == ps.posparams[0] for s in par.body)):
-                    ctx.violate("R2", "the all(...) predicate of prepare_segmented does not guard the identity return", ps, n)
-    norm = lambda s: s.replace("(", "").replace(")", "") if s else s
-    if keep_pred and prep_pred and norm(keep_pred) == norm(prep_pred):
-        ctx.ok("R2", f"both use `{prep_pred}`", f"{ps.module.relpath}:{ps.lineno}")
-    else:
-        ctx.violate("R2", f"predicates differ: convert_to_segmented keeps a shell when `{keep_pred}`, prepare_segmented sees nothing to do when all `{prep_pred}`", ps, ps.node, construct=f"keep `{keep_pred}` vs prepare `{prep_pred}`")
-    # the predicate itself: ncon == 1 or (keep_sp and ncon == 2 and angmoms == [0, 1])
-    want_pred = "S.ncon == 1 or keep_sp and S.ncon == 2 and (S.angmoms == [0, 1]).all()"
-    if keep_pred and norm(keep_pred) == norm(want_pred):
-        ctx.ok("R2", "keep predicate = single contraction, or SP shell when keep_sp", f"{cs.module.relpath}:{cs.lineno}")
-    else:
-        ctx.violate("R2", f"the keep predicate `{keep_pred}` is not `ncon == 1 or (keep_sp and ncon == 2 and angmoms == [0, 1])`", cs, cs.node, construct=f"keep predicate {keep_pred}")
+    from .segpred import check_segmentation
+
+    check_segmentation(ctx, "R1", "R2")
     # prepare passes keep_sp through
     ccalls = [c for c in ps.calls if cs in c.callees]
     if len(ccalls) == 1:
